@@ -26,6 +26,7 @@ struct Exp {                       // one expected delivery
   bool any_error_name = false;     // error name not fixed by the documents
   std::vector<std::string> error_any_of;   // if non-empty: one of these
   bool ignore_body = false;        // e.g. human-readable error text
+  bool any_reply_serial = false;   // reply to a bus-originated message whose serial the model cannot know
   bool any_destination = false;    // addressee has no unique name yet: DESTINATION not fixed by the documents
   bool body_is_name_set = false;   // body = one 'as' compared as a set (ListNames)
   bool last = false;               // a reply: must arrive after every `pre` item of its group
@@ -43,7 +44,7 @@ struct Group {                     // everything one processed event makes one r
 
 struct QEntry { int c; bool allow_replacement; bool do_not_queue; };
 
-struct PendingReply { int caller; int callee; uint32_t serial; int64_t deadline_us; };
+struct PendingReply { int caller; int callee; uint32_t serial; int64_t deadline_us; bool doomed = false; /* callee gone: the bus will expire it at once */ };
 
 struct Conn {
   bool exists = false;             // connect step happened
@@ -57,6 +58,7 @@ struct Conn {
   std::vector<unsigned> gids;
   bool fdpass = false;
   std::vector<mr::Rule> rules;
+  std::vector<mr::Rule> mon_rules; // filter of a monitor (empty list never happens: no rules given = one match-all rule)
   std::vector<std::string> rule_texts;
   std::vector<bool> rule_doomed;   // names a unique name that has disconnected: can never match again
   uint64_t processed = 0;          // messages of this connection processed so far
@@ -90,6 +92,7 @@ class Model {
   std::vector<std::vector<Exp>> floating;               // per recipient: must arrive by the next quiescent point, position free
   std::vector<PendingReply> pending;
   Limits lim;
+  int becoming_monitor = -1;                             // connection whose BecomeMonitor is being processed right now
   unsigned bus_uid = 0;                                  // uid the bus runs as
   uint64_t event = 0;
   int64_t now_us = 0;
@@ -113,6 +116,7 @@ class Model {
   void reply_expired(int caller, int callee, uint32_t serial);
   // slots whose deadline has passed (the bus must expire them once its loop runs)
   std::vector<PendingReply> overdue() const;
+  void doom_slots_of(int callee, const char *why);
   // a white-box observation resolves an open choice: the actual queue order
   void resolve_choice(const std::string &name, const std::vector<int> &actual_order);
   // rules naming a unique name that went away: dropped (true) or kept (false)
@@ -129,12 +133,17 @@ class Model {
  private:
   void emit(int recipient, Exp e);
   void emit_floating(int recipient, Exp e);
+  // every monitor whose filter matches gets one copy (before any policy decision)
+  void capture(int sender, const wire::Msg &m, int addressed, bool optional = false, bool floating = false);
+  void capture_loose(const Exp &orig, int addressed, bool floating = false);
+  void monitors_may_see_refusal(int sender, const wire::Msg &m);
   bool bus_may_deliver(int recipient, const wire::Msg &m);   // receive policy of the recipient for a bus-originated message
   void emit_from_bus(int recipient, Exp e, bool floating = false);
   void emit_broadcast_from_bus(const wire::Msg &sig);
   void route(int c, const wire::Msg &m, int addressed);
   void route_matches(int sender, const wire::Msg &m, int addressed, bool requested, bool policy_lenient = false);
   void driver(int c, const wire::Msg &m);
+  void become_monitor(int c, const wire::Msg &m);
   void reply_ok(int c, const wire::Msg &call, std::vector<wire::Value> body, bool name_set = false);
   void reply_err(int c, const wire::Msg &call, const std::string &name, std::vector<std::string> any_of = {});
   void name_owner_changed(const std::string &name, const std::string &old_o, const std::string &new_o);
